@@ -53,7 +53,9 @@ def body(c):
         "equivalent spelling), swapped, zero or negative, header keywords "
         "re-stated later in the header with a different argument or moved "
         "across their dependants (optionally with a data section rewritten "
-        "for the new value).  Each input is one event validated by "
+        "for the new value), keys and version numbers of other versions of "
+        "the .vnacal format (type:, current matrix keys in pre-release "
+        "files, e: in current ones, other first lines).  Each input is one event validated by "
         "LoadContractTrace: Fail(errno class, one matching one-line "
         "callback, no object / destination usable) or Ok(self-consistent: "
         "dimensions fit the type, ascending calibration frequencies, all "
